@@ -5,10 +5,27 @@ from ..core import Job, VERIF, native_replay_generic
 H = os.path.join(VERIF, "harness")
 
 
+def size_probe(ctx):
+    """memory.size on a SHARED memory (whose byte size is the maximum reservation): the generated code must deliver the current page count"""
+    from ..gprobe import ProbeModule, Probe
+    from .. import wasm as W, memrec
+    from . import c05
+    pm = ProbeModule("c18size", memory=(1, 4, True))
+    mr = ctx.path("memrec", "memrec.h")
+    with open(mr, "w") as f:
+        f.write(memrec.text())
+    pm.pre_includes = [mr]
+    pm.decls = ["static wasmMemory g_mem;"]
+    pm.add(Probe("memorysizeshared", [], W.I32, W.ins("memory.size"), spec="m_pages",
+                 pre_stmts=c05.PRE + ["ND(U32, m_pages); ND(U32, m_size); g_mem.pages = m_pages; g_mem.size = m_size; g_mem.maxPages = 4; g_mem.shared = 1;"],
+                 post=[("g_mr_calls == 0 && g_mem.pages == m_pages", "memory.size only reads the page count (not the reserved byte size)")], wasm_desc="(memory.size) on a shared memory"))
+    return pm.jobs(ctx, ["wasm_int.h", "libm_markers.h"], "G", defines=["WASM_THREADS_PTHREADS"])
+
+
 def make_jobs(ctx):
     inc = [os.path.join(ctx.repo, "w2c2")]
     rp = lambda c, j, p, v: native_replay_generic(c, j, p, v)
-    return [
+    return size_probe(ctx) + [
         Job("RG.grow_shared", os.path.join(H, "c18_grow.c"), entry="h_grow_shared", includes=inc, defines=["WASM_THREADS_PTHREADS"],
             enforce=[("wasmMemoryGrow", "c_wasmMemoryGrow")], funcs=["w2c2_base.h:wasmMemoryGrow (shared)"], replay=rp,
             info=dict(layer="RG", note="native replay executes the interfering grow inside the interposed pthread_mutex_lock")),
